@@ -141,7 +141,7 @@ func init() {
 				bound = 2
 			}
 			ps := []*harness.Phase{
-				{Name: "required-decode", Bound: bound, Rule: "7 id triples x 8 required-masks x 8 nesting positions x (64 omission pairs + 3 wrong-wire-type variants) x 3 one-call histories x pool answers with <=bound deviations; distinct by (type, message, history)", Body: func(c *explore.C) { c09Decode(c, tier) }},
+				{Name: "required-decode", Bound: bound, Rule: "7 id triples x 8 required-masks x 8 nesting positions x (64 omission pairs + 3 wrong-wire-type variants) x 6 one-call histories (none / successful same type / successful sibling type / required-missing failure / truncation failures) x pool answers with <=bound deviations; distinct by (type, message, history)", Body: func(c *explore.C) { c09Decode(c, tier) }},
 				{Name: "required-encode", Rule: "7 id triples x 8 masks x 8 positions x {zero, nil, set} values: every required field id occurs in the output", Body: func(c *explore.C) { c09Encode(c, tier) }},
 			}
 			return append(ps, e3Phases("C09")...)
@@ -167,7 +167,7 @@ func c09Decode(c *explore.C, tier universe.Tier) {
 	w := c09Writer(core, wrong)
 	wouter := retarget(outer, core, w)
 	msg := ref.Encode(wouter, build(c09CoreVal(w, pa, 1), c09CoreVal(w, pb, 4)))
-	hist := c.Choose(3, explore.Data, "history")
+	hist := c.Choose(6, explore.Data, "history")
 	harness.Cur.Crumb(c.Choices())
 	hooks.Reset()
 	var fail *decodeVerdict
@@ -180,6 +180,16 @@ func c09Decode(c *explore.C, tier universe.Tier) {
 			other := c09Core(tri, 7)
 			full := ref.Encode(other, c09CoreVal(c09Writer(other, -1), 7, 5))
 			Dec(full, universe.New(other, nil).Interface())
+		case 3: // a decode of the same type that FAILS for a missing required field (all others present)
+			part := ref.Encode(wouter, build(c09CoreVal(c09Writer(core, -1), 7&^mask|mask&6, 2), c09CoreVal(c09Writer(core, -1), 7, 3)))
+			Dec(part, universe.New(outer, nil).Interface())
+		case 4: // a decode of the same type that fails by truncation after its fields were seen
+			full := ref.Encode(wouter, build(c09CoreVal(c09Writer(core, -1), 7, 2), c09CoreVal(c09Writer(core, -1), 7, 3)))
+			Dec(full[:len(full)-1], universe.New(outer, nil).Interface())
+		case 5: // the all-required sibling type fails midway (truncated inside its last field)
+			other := c09Core(tri, 7)
+			full := ref.Encode(other, c09CoreVal(c09Writer(other, -1), 7, 5))
+			Dec(full[:len(full)-2], universe.New(other, nil).Interface())
 		}
 		fail = decodeAndCompare(outer, msg, decodeOpts{Guard: true})
 	})
